@@ -628,7 +628,7 @@ Section Cells.
 
   (* FILL arrays *)
   Lemma expand_ok_length (l : list (tok (T:=T))) e acc c vals c' :
-    expand l (Some e) acc c = XOk vals c' -> Z.of_nat (List.length vals) = e.
+    expand S l (Some e) acc c = XOk vals c' -> Z.of_nat (List.length vals) = e.
   Proof.
     assert (Hfin : forall acc c, xfinish (Some e) acc c = XOk vals c' ->
                                  Z.of_nat (List.length vals) = e).
@@ -653,7 +653,7 @@ Section Cells.
     intros Hc H Hb. unfold parse_fill in H. rewrite Hc in H.
     destruct (span has_colon r1) as [rs r2] eqn:Es.
     apply bind_ok in H; destruct H as [b' [Hb' H]].
-    destruct (expand r2 (Some (bounds_size b')) [] 0) as [vals consumed|e] eqn:Ee.
+    destruct (expand S r2 (Some (bounds_size b')) [] 0) as [vals consumed|e] eqn:Ee.
     - apply bind_ok in H; destruct H as [[k rest'] [Hk H]]. injection H as <- <-.
       simpl in Hb. injection Hb as <-. simpl. rewrite map_length.
       eapply expand_ok_length; eauto.
@@ -669,7 +669,7 @@ Section Cells.
 
   Lemma expand_short_rejected (nums : list (tok (T:=T))) e acc c :
     Forall plain nums -> (Z.of_nat (List.length acc + List.length nums) < e)%Z ->
-    expand nums (Some e) acc c = XErr EValue.
+    expand S nums (Some e) acc c = XErr EValue.
   Proof.
     revert acc c; induction nums as [|t nums IH]; intros acc c Hp Hlt; cbn [expand]; cbv zeta.
     - unfold xfinish. destruct (Z.eqb_spec (Z.of_nat (List.length acc)) e); [simpl in Hlt; lia|reflexivity].
@@ -696,7 +696,7 @@ Section Cells.
 
   (* IMP cards of unequal lengths *)
   Lemma imp_unequal_rejected (cards : list (list (tok (T:=T)))) rows r1 r2 :
-    expand_cards cards = Ok rows -> In r1 rows -> In r2 rows ->
+    expand_cards S cards = Ok rows -> In r1 rows -> In r2 rows ->
     List.length r1 <> List.length r2 ->
     imp_cards_check S cards = Err EParseCell.
   Proof.
@@ -785,7 +785,7 @@ Section Runs.
   Qed.
 
   Theorem run_imp_unequal_rejected (d : deckm (T:=T)) rows r1 r2 :
-    expand_cards (d_imps d) = Ok rows -> In r1 rows -> In r2 rows ->
+    expand_cards S (d_imps d) = Ok rows -> In r1 rows -> In r2 rows ->
     List.length r1 <> List.length r2 -> is_ok (validate S d) = false.
   Proof.
     intros Hrows H1 H2 Hne. apply not_ok_unit. intros H. stages H.
@@ -1152,7 +1152,7 @@ Section Summary.
        (In (sf_mn s) macros /\ In (List.length (sf_params s)) (macro_arities (sf_mn s))) \/
        (In (sf_mn s) elementary /\ elem_accepts (sf_mn s) (List.length (sf_params s)) = true)) /\
     (* IMP cards *)
-    (forall rows, expand_cards (d_imps d) = Ok rows ->
+    (forall rows, expand_cards S (d_imps d) = Ok rows ->
        forall r1 r2, In r1 rows -> In r2 rows -> List.length r1 = List.length r2) /\
     (* material cards *)
     (d_skipcomp d = false ->
